@@ -106,6 +106,8 @@ func (op *MergeOperator) compact() error {
 			Key:   y.KeyWithTs(op.key, version),
 			Value: val,
 			meta:  bitDiscardEarlierVersions,
+			// the adds were published when they were committed; this is their fold
+			notACommit: true,
 		},
 	}
 	// Write value back to the DB. It is important that we do not set the bitMergeEntry bit
